@@ -126,6 +126,7 @@ def _ops_scenarios():
         "term": ("term", {"0": "X", "2": "Z"}, "c0"),
         "sum2": ("sum", [({"0": "X"}, "c0"), ({"1": "Y", "0": "Z"}, "c1")]),
         "dup": ("sum", [({"0": "X"}, "c0"), ({"0": "X"}, "c1"), ({}, "r2")]),
+        "sumR": ("sum", [({"0": "X"}, "r0"), ({"1": "Z", "0": "Y"}, "r1")]),
     }
     B_specs = {"termB": ("term", {"0": "Y"}, "c3"), "sumB": ("sum", [({"0": "X"}, "c3"), ({"2": "Z"}, 0.5)])}
     out = []
@@ -140,6 +141,10 @@ def _ops_scenarios():
         out.append(dict(name=f"operator {name} [{a}{',' + b if b else ''}]", engine="E2-pauli", build=build, call=f))
 
     for a in A_specs:
+        if a == "sumR":  # real-coefficient sum: only for the power scenario (complex-coefficient squares exceed z3's reach, measured)
+            mk("A ** 2", a, None, lambda o: o["A"] ** 2)
+            mk("A ** 3", a, None, lambda o: o["A"] ** 3)
+            continue
         for b in B_specs:
             mk("A + B", a, b, lambda o: o["A"] + o["B"])
             mk("A - B", a, b, lambda o: o["A"] - o["B"])
@@ -148,7 +153,7 @@ def _ops_scenarios():
         mk("A * 2.5", a, None, lambda o: o["A"] * 2.5)
         mk("(0.5+1j) * A", a, None, lambda o: (0.5 + 1j) * o["A"])
         mk("A / 4", a, None, lambda o: o["A"] / 4)
-        if a == "term" or (a == "sum2" and os.environ.get("VERIF_C20_TIER") == "thorough"):
+        if a == "term":
             mk("A ** 2", a, None, lambda o: o["A"] ** 2)
         mk("-1 * A + 3", a, None, lambda o: -1 * o["A"] + 3)
         mk("simplify", a, None, lambda o: o["A"].simplify() if hasattr(o["A"], "simplify") else o["A"].copy())
